@@ -36,7 +36,14 @@ package scheduler
 // deduplication map, and only when the task is final (not on the retry on the
 // largest size class).
 //@ func (*task).complete
-//@   props C03 C01 C05
+//@   props C03 C01 C05 C07
+//@   ensures the-learner-of-the-task-gets-exactly-one-verdict:
+//@             old(t.executeResponse) == nil && old(t.initialSizeClassLearner) != nil ==>
+//@             lrncalls(old(t.initialSizeClassLearner)) == old(lrncalls(t.initialSizeClassLearner)) + 1
+//@   ensures a-background-learner-is-abandoned-or-handed-to-a-background-task:
+//@             backgroundInitialSizeClassLearner != nil && backgroundInitialSizeClassLearner != old(t.initialSizeClassLearner) ==>
+//@             lrncalls(backgroundInitialSizeClassLearner) == old(lrncalls(backgroundInitialSizeClassLearner)) + 1 ||
+//@             (isnew(backgroundTask) && backgroundTask.initialSizeClassLearner == backgroundInitialSizeClassLearner)
 //@   loop 5 invariant transplanted-operations-are-homed-in-the-largest-size-class:
 //@             forall k *invocation :: (k in t.operations) ==> t.operations[k].invocation.sizeClassQueue == largestSCQ
 //@   at call schedule#2 assert retried-operations-are-homed-in-the-largest-size-class:
@@ -212,7 +219,7 @@ package scheduler
 //@   ghostset unqueued[t] = old(unqueued(t)) + 1
 //@   ensures held-by-exactly-this-worker: w.currentTask == t && t.currentWorker == w
 //@ func (*worker).assignUnqueuedTask
-//@   props C01 C02
+//@   props C01 C02 C06
 //@   ensures held-by-exactly-this-worker: w.currentTask == t && t.currentWorker == w
 //@   ensures every-assignment-starts-with-a-fresh-redelivery-budget: t.retryCount == 0
 // An invocation stays in its parent's heap of queued children exactly as long
@@ -295,7 +302,7 @@ package scheduler
 //@   props C01
 //@   ensures a-worker-without-a-task-runs-nothing-correct: w.currentTask == nil ==> !r0
 //@ func (*worker).getCurrentOrNextTask
-//@   props C01
+//@   props C01 C06
 //@   assume w.currentTask != nil ==> w.currentTask.currentWorker == w && w.currentTask.executeResponse == nil -- representation invariant of the scheduler: a worker's task points back at the worker and is not completed (established by assignQueuedTask/assignUnqueuedTask: held-by-exactly-this-worker, proved; complete detaches both sides: proved)
 //@   ensures the-assigned-task-is-reissued-and-the-retry-counted:
 //@             old(w.currentTask) != nil && old(w.currentTask.retryCount) < bq.configuration.WorkerTaskRetryCount ==>
